@@ -368,6 +368,10 @@ pub fn seed_ops(name: &str) -> Vec<PuOp> {
             v.push(mk_pool("s4", &["uusd", "uusdc", "uweth", "uom"], &[6, 6, 6, 6], std_fees(), Some(10)));
             v.push(prov(OWNER, "o.s4", &[("uusd", 8 * E6), ("uusdc", 9 * E6), ("uweth", 10 * E6), ("uom", 11 * E6)]));
             v.push(prov(A, "o.s4", &[("uusd", E6), ("uusdc", E6), ("uweth", E6), ("uom", E6)]));
+            // a constant-product pool of a 6- and an 18-decimals asset (raw reserve ratio 10^12), 18-decimals denom listed first
+            v.push(mk_pool("cpx", &["ausdy", "uusdc"], &[18, 6], std_fees(), None));
+            v.push(prov(OWNER, "o.cpx", &[("ausdy", 3 * E18), ("uusdc", 3 * E6)]));
+            v.push(prov(A, "o.cpx", &[("ausdy", E18), ("uusdc", E6)]));
             v
         }
         _ => panic!("MACHINERY: unknown PU seed {name}"),
